@@ -242,6 +242,10 @@ def build ():
       lldp_tlv(6, b"system description") + lldp_tlv(7, b"\0\x14\0\x04") +
       lldp_tlv(8, b"\x05\x01\x0a\0\0\x01\x02\0\0\0\x01\0") +
       lldp_tlv(127, b"\0\x12\x0f\x01\x03\x6c\0\0\x10"))))
+  add("lldp_two_caps", e(bytes.fromhex("0180c200000e"), M1, 0x88cc, lldp(
+      chassis=b"\x04" + M1, port=b"\x05eth1", ttl=120,
+      extra=lldp_tlv(7, b"\0\x14\0\x04") + lldp_tlv(5, b"n") +
+      lldp_tlv(7, b"\0\xff\0\x80"))))
   add("eapol_start", e(bytes.fromhex("0180c2000003"), M1, 0x888e, eapol(1, b"")))
   add("eapol_eap_request", e(bytes.fromhex("0180c2000003"), M1, 0x888e,
       eapol(0, eap(1, 5, 1, b"identity?"))))
